@@ -68,9 +68,7 @@ Qed.
 Definition closed_list_b (l : list Z) (c : Z) : bool :=
   nodup_b l && forallb (fun d => zmem d classes) l
   && forallb (fun d => Bool.eqb (zmem d l) (strict_desc_b d c)) classes.
-Definition closed_b (c : Z) : bool := closed_list_b (iter_subclasses c) c.
-
-Lemma closed_all : forallb closed_b classes = true.
+Lemma closed_all : forallb (fun c => closed_list_b (iter_subclasses c) c) classes = true.
 Proof. vm_cast_no_check (eq_refl true). Qed.
 
 Lemma strict_desc_b_iff d c : strict_desc_b d c = true <-> strict_descendant d c.
@@ -99,7 +97,7 @@ Lemma subclasses_closed_lemma : forall c, valid_cls c ->
   ~ In c (iter_subclasses c).
 Proof.
   intros c Hc. apply classes_In in Hc.
-  pose proof (forallb_In _ _ closed_all c Hc) as H.
+  pose proof (forallb_In _ _ closed_all c Hc) as H. cbv beta in H.
   apply closed_list_sound in H. destruct H as [A B].
   split; [exact A|]. split; [exact B|].
   intros Hin. apply B in Hin. destruct Hin as [Hne _]. congruence.
